@@ -27,7 +27,7 @@ RULES = {
     "C47.consume": "the receiver takes every ITP off the header queue (within 8 cycles) and never takes another type",
 }
 PROBES = ["itp", "other_type", "back_to_back_itp", "itp_right_after_other", "high_counter_bits", "high_delta_bits",
-          "near_miss_type", "second_consumer_stall"]
+          "near_miss_type", "second_consumer_stall", "itp_with_delayed_flag"]
 META = {
     "components_real": ["luna.gateware.usb.usb3.protocol.timestamp.TimestampPacketReceiver",
                         "luna.gateware.usb.usb3.link.header.HeaderQueueDemultiplexer"],
@@ -43,6 +43,19 @@ TIERS = {"quick": {"runs": 8000, "wall": 70}, "thorough": {"runs": 90000, "wall"
 MAX_LATENCY = 4
 ACCEPT_BOUND = 8
 TAIL = 10
+
+
+LINK_FIELDS = ("crc16", "sequence_number", "dw3_reserved", "hub_depth", "delayed", "deferred", "crc5")
+
+
+def _link_fields(rng):
+    """ the link control word that travels with every header (set by the link partner / hubs on the way; not part of the
+        timestamp): any value must leave the decoding untouched """
+    if rng.random() < 0.4:
+        return {}
+    return {"crc16": rng.getrandbits(16), "sequence_number": rng.getrandbits(3), "dw3_reserved": rng.choice([0, 0, rng.getrandbits(3)]),
+            "hub_depth": rng.choice([0, rng.getrandbits(3)]), "delayed": rng.getrandbits(1), "deferred": rng.getrandbits(1),
+            "crc5": rng.getrandbits(5)}
 
 
 def gen(rng, tier, index):
@@ -65,13 +78,13 @@ def gen(rng, tier, index):
             else:
                 ctr, dlt = 0, 0
             ops.append({"op": "itp", "ctr": ctr, "delta": dlt, "dw1": rng.getrandbits(32), "dw2": rng.getrandbits(32),
-                        "gap": gap})
+                        "gap": gap, "link": _link_fields(rng)})
         else:
             typ = rng.choice([0, 4, 8, 0, 4, 8, 13, 14, 28, 12 ^ 16, 12 ^ 1, 31, rng.randrange(32)])
             if typ == HP_TYPE_ITP:
                 typ = 8
             ops.append({"op": "other", "dw0": (rng.getrandbits(27) << 5) | typ, "dw1": rng.getrandbits(32),
-                        "dw2": rng.getrandbits(32), "gap": gap, "stall": rng.choice([0, 0, 0, 1, 2, 5])})
+                        "dw2": rng.getrandbits(32), "gap": gap, "stall": rng.choice([0, 0, 0, 1, 2, 5]), "link": _link_fields(rng)})
     return {"engine": ENGINE, "config": {}, "ops": ops}
 
 
@@ -98,6 +111,7 @@ def _bench():
         sink = dut.demux.sink
         ins = {"valid": sink.valid, "dw0": sink.header.dw0, "dw1": sink.header.dw1, "dw2": sink.header.dw2,
                "other_ready": dut.other.ready}
+        ins.update({"l_" + f: getattr(sink.header, f) for f in LINK_FIELDS})
         outs = {"ready": sink.ready, "itp_ready": dut.itp.header_sink.ready, "update": dut.itp.update_received,
                 "ctr": dut.itp.bus_interval_counter, "delta": dut.itp.delta}
         return make_bench(dut, clocks={"ss": 1 / 125e6}, main="ss", ins=ins, outs=outs)
@@ -137,9 +151,15 @@ class _Actor:
         if op["op"] == "itp":
             from_model = itp_dw0(op["ctr"], op["delta"])
             self.other_ready = 0
-            return {"valid": 1, "dw0": from_model, "dw1": op["dw1"], "dw2": op["dw2"], "other_ready": 0}
+            pins = {"valid": 1, "dw0": from_model, "dw1": op["dw1"], "dw2": op["dw2"], "other_ready": 0}
+            pins.update({"l_" + f: op.get("link", {}).get(f, 0) for f in LINK_FIELDS})
+            if op.get("link", {}).get("delayed"):
+                self.probes["itp_with_delayed_flag"] += 0 if self.presented else 1
+            return pins
         self.other_ready = int(self.presented >= op["stall"])
-        return {"valid": 1, "dw0": op["dw0"], "dw1": op["dw1"], "dw2": op["dw2"], "other_ready": self.other_ready}
+        pins = {"valid": 1, "dw0": op["dw0"], "dw1": op["dw1"], "dw2": op["dw2"], "other_ready": self.other_ready}
+        pins.update({"l_" + f: op.get("link", {}).get(f, 0) for f in LINK_FIELDS})
+        return pins
 
     def _fail(self, rule, t, msg, **shape):
         self.viol.add(rule, t, msg, **shape)
